@@ -18,6 +18,22 @@ def loops(k, header, kw):
             f"  forall|j: int| 0 <= j < {i} ==> #[trigger] arg_types@[j] == expr_ty(args_tast@[j]),\n decreases args.len() - {i},")
 
 
+def named_loops(k, header, kw):
+    mt = re.search(r"while\s+(__fk\d+)\s*<\s*args\.len\(\)", header)
+    if mt:
+        i = mt.group(1)
+        return (f"invariant {i} <= args.len(), args_tast@.len() == {i}, arg_types@.len() == {i},\n"
+                f"  forall|j: int| 0 <= j < {i} ==> inferred(#[trigger] args@[j], args_tast@[j]),\n"
+                f"  forall|j: int| 0 <= j < {i} ==> #[trigger] arg_types@[j] == expr_ty(args_tast@[j]),\n decreases args.len() - {i},")
+    mt = re.search(r"while\s+(__zk\d+)\s*<\s*args\.len\(\)\s*&&\s*__zk\d+\s*<\s*params\.len\(\)", header)
+    if mt:
+        i = mt.group(1)
+        return (f"invariant {i} <= args.len(), {i} <= params.len(), args_tast@.len() == {i}, arg_types@.len() == {i},\n"
+                f"  forall|j: int| 0 <= j < {i} ==> checked_as(#[trigger] args@[j], params@[j], args_tast@[j]),\n"
+                f"  forall|j: int| 0 <= j < {i} ==> #[trigger] arg_types@[j] == expr_ty(args_tast@[j]),\n decreases args.len() - {i},")
+    return None
+
+
 START = (r"let call_site_func_ty = tast::Ty::TFunc \{\s*params: arg_types,(?=\s*ret_ty: Box::new\(ret_ty\.clone\(\)\),\s*\};\s*self\.push_constraint\(Constraint::TypeEqual\(\s*inst_ty\.clone\(\))")
 EXPR_START = (r"let call_site_func_ty = tast::Ty::TFunc \{\s*params: arg_types,(?=\s*ret_ty: Box::new\(ret_ty\.clone\(\)\),\s*\};\s*let func_tast = self\.infer_expr\()")
 
@@ -72,6 +88,17 @@ UNIT = Unit(
            obligation="the callee's type is equated with (argument types) -> (the call's type); arguments elaborated once, in order",
            contract="ensures local_call_ok(args@, r, final(self).constraints()),",
            loop_fn=loops),
+        Fn(file=C, name="infer_call_expr", container="Typer", as_method_of="Typer", rename="call_named_args", ret="r", attrs="#[verifier::loop_isolation(false)]",
+           rules=["attrs", "fmtmsg", ("strip", "tast::"), ("strip", "hir::"), ("strip", "super::util::"), "for_zip", "for_index", "let_chain_rev", "let_chain"],
+           cut_from="let name = &hint;", cut_before='let ret_ty = if name.as_str() == "ref" && args_tast.len() == 1 {',
+           cut_tail="        return Some((inst_ty, args_tast, arg_types));\n    }\n    None",
+           sig="pub fn call_named_args(&mut self, genv: &PackageTypeEnv, local_env: &mut LocalTypeEnv, diagnostics: &mut Diagnostics, args: &Vec<ExprId>, hint: String) -> Option<(Ty, Vec<Expr>, Vec<Ty>)>",
+           pre_rewrites=[("let mut args_tast = Vec::new();", "let mut args_tast: Vec<Expr> = Vec::new();", "*"), ("let mut arg_types = Vec::new();", "let mut arg_types: Vec<Ty> = Vec::new();", "*"),
+                         ("!params.is_empty()", "params.len() > 0", "*")],
+           rewrites=[VC],
+           obligation="a call by name: when the callee's parameter list fits the call, every argument is checked against its parameter's type, in order; the callee's type is an instance of the declared scheme",
+           contract="ensures named_args_ok(*genv, hint@, args@, r),",
+           loop_fn=named_loops),
         named_tail(1, START + r"(?=.*" + START + ")"),
         named_tail(2, START + r"(?!.*" + START + ")"),
         Fn(file=C, name="infer_call_expr", container="Typer", as_method_of="Typer", rename="call_expr_tail", ret="r",
